@@ -17,6 +17,15 @@ def unsigned_t(t):
     return t.startswith('unsigned') or t in ('size_t', 'std::size_t')
 
 
+from ..cg import natural_loop as cg_nl35  # noqa: E402
+
+
+def strip35(t):
+    while t[0] in ('cast', 'conv'):
+        t = t[2]
+    return t
+
+
 def run_raw_lists(ctx, P, A):
     """R5: the block list filled by smpi_is_shared holds positions in the *allocation*; positions in the *message* exist only after
     shift_and_frame_private_blocks(list, offset, size) with the offset of the same call."""
@@ -157,6 +166,28 @@ def run(ctx):
                 okf = True
     ctx.check(okf, 'R1', 'shifted blocks are appended to the result', where(sf), '', key='R1|shift_and_frame_private_blocks|append')
 
+    # both ends of a shifted block are clamped to the size of the message, and a block is kept iff something of it is left inside the message
+    mk = [e for eid in range(len(sf['elems'])) for e in v.events_of(eid) if e.kind == 'call' and e.q == 'std::make_pair' and len(e.args) == 2]
+    bs = lib.parm(sf, 'buff_size')
+    okclamp = len(mk) >= 1 and all(strip35(a)[0] == 'call' and strip35(a)[1] == 'std::min' and bs in [strip35(x) for x in strip35(a)[3]] for a in mk[0].args)
+    ctx.check(okclamp, 'R1', 'shift_and_frame_private_blocks: both ends of the shifted block are clamped to the size of the message', where(sf, mk[0].line if mk else None),
+              '' if okclamp else 'an end is not min(., buff_size): the copy runs past the end of the message', key='R1|shift_and_frame_private_blocks|both ends clamped')
+    keep = None
+    for p in v.paths(max_visits=2):
+        if p.exit in ('noreturn', 'cut', 'throw'):
+            continue
+        evs = v.path_events(p)
+        pb = [i for i, e in enumerate(evs) if e.kind == 'call' and e.q.endswith('::push_back')]
+        if not pb:
+            continue
+        facts = [(e.atom, e.pol) for e in evs[:pb[0]] if e.kind == 'branch' and ('first' in repr(e.atom) or 'second' in repr(e.atom)) and 'new_block' in repr(e.atom)]
+        nonempty = any(a[0] == 'bin' and ((a[1] == '<=' and 'second' in repr(a[2]) and strip35(a[3]) in (('int', 0),) and not pol) or (a[1] == '>' and 'second' in repr(a[2]) and strip35(a[3]) == ('int', 0) and pol)) for a, pol in facts)
+        inside = any(a[0] == 'bin' and a[1] == '<' and 'first' in repr(a[2]) and strip35(a[3]) == bs and pol for a, pol in facts)
+        good = nonempty and inside and len(facts) == 2
+        keep = good if keep is None else (keep and good)
+    ctx.check(bool(keep), 'R1', 'shift_and_frame_private_blocks keeps a shifted block iff its end is > 0 and its begin is < the size of the message', where(sf),
+              '' if keep else 'a block cut at the start of the message (begin 0) or at its end would be dropped: its private bytes are not copied', key='R1|shift_and_frame_private_blocks|kept blocks')
+
     # ---- R2 ----------------------------------------------------------------------------------------------------------------------------------------
     ctx.rule('R2', 'merge_private_blocks: overlap -> [max(begins), min(ends)), advance the list whose block ends first; disjoint -> advance the earlier block', 3)
     mg = P.fn('merge_private_blocks')
@@ -190,6 +221,8 @@ def run(ctx):
     n_ok = 0
     for tests, (made, inc) in shapes.items():
         td = dict(tests)
+        # adjacent blocks (one ends where the other begins) may be treated as disjoint (<=) or as an empty overlap (<): both copy the same bytes
+        td.update({k.replace(' < ', ' <= '): v_ for k, v_ in tests if ' < ' in k and ' <= ' not in k})
         s_le_d = td.get('(src.operator[](i_src).second <= dst.operator[](i_dst).first)')
         d_le_s = td.get('(dst.operator[](i_dst).second <= src.operator[](i_src).first)')
         if s_le_d is True:
@@ -208,6 +241,18 @@ def run(ctx):
                       ex.pretty(made.nf)[:120] if made else 'no block emitted', key='R2|merge_private_blocks|overlap')
             n_ok += 1
     ctx.require(n_ok >= 3, 'R2', 'iteration shapes of merge_private_blocks not recognised (%d): %s' % (n_ok, list(shapes)[:2]))
+    # the merge runs as long as both lists have a block left: i_src < src.size() && i_dst < dst.size(), the indices compared as they are
+    vm_ = A.view(mg)
+    conds = []
+    for b_ in ([1] if vm_.loop_heads() else []):
+        for b in [x['id'] for x in vm_.blocks]:
+            at = vm_.cond_atom(b)
+            if at and at[0][0] == 'bin' and at[0][1] == '<' and any(t[0] == 'call' and t[1].endswith('::size') for t in ex.subterms(at[0][3])):
+                lhs = strip35(at[0][2])
+                szobj = [t[2] for t in ex.subterms(at[0][3]) if t[0] == 'call' and t[1].endswith('::size')][0]
+                conds.append((lhs[2] if lhs[0] == 'var' else ex.pretty(lhs), szobj[2] if szobj[0] == 'var' else ex.pretty(szobj)))
+    ctx.check(sorted(conds) == [('i_dst', 'dst'), ('i_src', 'src')], 'R2', 'merge_private_blocks loops while i_src < src.size() && i_dst < dst.size()', where(mg), 'loop tests: %s' % sorted(conds),
+              key='R2|merge_private_blocks|loop bounds')
 
     # ---- R3 ------------------------------------------------------------------------------------------------------------------------------------------
     ctx.rule('R3', 'the copy callback copies exactly the merged blocks, with the same list for the temporary and the destination; memcpy_private copies [begin,end) at equal offsets', 2)
